@@ -24,8 +24,10 @@ type PropEntry struct {
 	Title          string              `json:"title"`
 	Pkgs           []string            `json:"pkgs"`
 	Units          []string            `json:"units"`             // unit short names (substring match on exact short name)
+	ThoroughUnits  []string            `json:"thorough_units,omitempty"` // units verified in the thorough tier only (obligations that need more than the quick time limit); the quick tier uses their contracts
 	Only           map[string][]string `json:"only,omitempty"`    // unit -> obligation-name substrings owned by this property (default: all)
 	Exclude        map[string][]string `json:"exclude,omitempty"` // unit -> obligation-name substrings owned by another property
+	ThoroughOnly   map[string][]string `json:"thorough_only,omitempty"` // unit -> obligation-name substrings checked in the thorough tier only (they need more than the quick time limit); assumed after their call site as always
 	MinObligations int                 `json:"min_obligations"`
 	CheckLocks     bool                `json:"check_locks,omitempty"`
 	LeanLemmas     []string            `json:"lean_lemmas,omitempty"` // files under /verif checked with `lean` in the thorough tier (induction lemmas the SMT solvers cannot do)
@@ -142,6 +144,9 @@ func cmdCheck(args []string) int {
 		for _, u := range e.Units {
 			allUnitOwners[u] = append(allUnitOwners[u], pid)
 		}
+		for _, u := range e.ThoroughUnits {
+			allUnitOwners[u] = append(allUnitOwners[u], pid+" (thorough tier only)")
+		}
 	}
 	for _, o := range allUnitOwners {
 		sort.Strings(o)
@@ -229,7 +234,11 @@ func runProperty(prop string, pe *PropEntry, kf *KnownFindings, repo, vd string,
 		}
 	}
 	opts := UnitOpts{CheckFrames: !pe.NoFrames, CheckLocks: pe.CheckLocks, CoverBlocks: tier == "thorough"}
-	for _, un := range pe.Units {
+	unitNames := append([]string{}, pe.Units...)
+	if tier == "thorough" {
+		unitNames = append(unitNames, pe.ThoroughUnits...)
+	}
+	for _, un := range unitNames {
 		sp := byShort[un]
 		if sp == nil {
 			fail("unit:"+un, "no contract found for unit "+un)
@@ -253,6 +262,35 @@ func runProperty(prop string, pe *PropEntry, kf *KnownFindings, repo, vd string,
 	}
 	scratch, _ := os.MkdirTemp("", "govc-"+prop+"-")
 	defer os.RemoveAll(scratch)
+	// obligations that only the thorough tier checks (slow queries: a loaded machine would turn them into timeouts)
+	if tier != "thorough" && len(pe.ThoroughOnly) > 0 {
+		var deferred []string
+		for _, u := range units {
+			subs := pe.ThoroughOnly[u.Name]
+			if len(subs) == 0 {
+				continue
+			}
+			var keep []*Oblig
+			for _, o := range u.Obligs {
+				skip := false
+				for _, sub := range subs {
+					if strings.Contains(o.Name, sub) {
+						skip = true
+					}
+				}
+				if skip {
+					deferred = append(deferred, o.Name)
+				} else {
+					keep = append(keep, o)
+				}
+			}
+			u.Obligs = keep
+		}
+		if len(deferred) > 0 {
+			res.Extra["deferred_to_thorough_tier"] = map[string]interface{}{"count": len(deferred), "obligations": deferred,
+				"note": "not checked in this tier (queries that need more than the quick time limit); the thorough tier of this check discharges them"}
+		}
+	}
 	SolveUnits(units, SolveOpts{TimeoutS: timeout, Scratch: scratch, Workers: 12})
 
 	// known findings for this property, by unit
